@@ -44,7 +44,9 @@ class ManifestEntryTIMESTAMP:
         return cls(ts)
 
     def to_list(self):
-        return (self.tag, self.ts.strftime('%Y-%m-%dT%H:%M:%SZ'))
+        # (%Y is not zero-padded on all platforms, strptime() needs 4 digits)
+        return (self.tag,
+                f'{self.ts.year:04d}' + self.ts.strftime('-%m-%dT%H:%M:%SZ'))
 
     def __eq__(self, other):
         return self.tag == other.tag and self.ts == other.ts
